@@ -395,6 +395,30 @@ def rule_r5(ctx, sf: SqlFacts) -> RuleResult:
                            "the marking statement does not select by title", u.call.lineno))
         else:
             rr.ok("core.Wtp.set_template_pre_expand", "UPDATE pages SET {} WHERE {}".format(",".join(sorted(sets)), u.where), {"where": u.where})
+    # the page that is marked is the page the caller named: the title bound into the statement is the parameter itself (not the
+    # title of a page found by a lookup -- resolving a redirect first marks the target *instead of* the flagged page and, since
+    # the target then already carries the flag, the work list never visits it), and nothing returns before the statement runs
+    fn = ctx.fn("core.Wtp.set_template_pre_expand")
+    params = [a.arg for a in fn.args.args if a.arg != "self"]
+    for u in ups:
+        b = u.bound
+        elts = b.elts if isinstance(b, (ast.Tuple, ast.List)) else []
+        if not elts:
+            raise AnalysisError("set_template_pre_expand: the values bound into the UPDATE were not recognised")
+        first = elts[0]
+        if isinstance(first, ast.Name) and first.id in params:
+            rr.ok("core.Wtp.set_template_pre_expand", "the bound title is the parameter `{}`".format(first.id))
+        elif any(isinstance(x, ast.Name) and x.id in params for x in ast.walk(first)) and not any(isinstance(x, ast.Call) for x in ast.walk(first)):
+            rr.ok("core.Wtp.set_template_pre_expand", "the bound title is derived from the parameter without a lookup")
+        else:
+            rr.bad(Finding("C17.R5", CORE, "core.Wtp.set_template_pre_expand", "title = {}".format(unparse(first)[:50]),
+                           "the page that gets marked is not the page named by the caller but `{}`: a flagged redirect stays unmarked, and its "
+                           "target is marked without ever entering the work list, so the pages that include the target are never reached".format(
+                               unparse(first)[:50]), u.call.lineno))
+        early = [r for r in walk_no_nested(fn) if isinstance(r, ast.Return) and r.lineno < u.call.lineno]
+        for r in early:
+            rr.bad(Finding("C17.R5", CORE, "core.Wtp.set_template_pre_expand", "return before the marking UPDATE",
+                           "on some path the function returns without marking the page it was asked to mark", r.lineno))
     return rr
 
 
